@@ -78,7 +78,7 @@ func collectBucketCandidates(sw hydra.Swamp, hints []BucketHint) []treasure.Trea
 // path in beacon.findTimeRangeBounds and the documented SDK semantics
 // on Index.FromTime / Index.ToTime. Either or both bounds may be nil.
 func applyTimeRange(candidates []treasure.Treasure, beaconType hydra.BeaconType, fromTime, toTime *time.Time) []treasure.Treasure {
-	if (fromTime == nil && toTime == nil) || beaconType == hydra.BeaconTypeKey {
+	if beaconType == hydra.BeaconTypeKey {
 		// the time window belongs to the time-ordered indexes; the key index ignores it
 		return candidates
 	}
@@ -92,6 +92,9 @@ func applyTimeRange(candidates []treasure.Treasure, beaconType hydra.BeaconType,
 	out := candidates[:0]
 	for _, t := range candidates {
 		ts := beaconTimeOf(t, beaconType)
+		if ts == 0 {
+			continue // a time-ordered index does not contain treasures without that timestamp
+		}
 		if fromTime != nil && ts < fromNs {
 			continue
 		}
